@@ -599,10 +599,10 @@ fn stream_trees(m: &mut Model, rep: &mut Report, rng: &Rng, thorough: bool) {
 
 // ------------------------------------------------------------------ soup + boundary
 
-fn soup_case(m: &mut Model, rep: &mut Report, r: &mut Rng, words: Vec<String>, stream: &str) {
+fn soup_case(m: &mut Model, rep: &mut Report, r: &mut Rng, words: Vec<String>, stream: &str, rich_ok: bool) {
     let natoms = words.iter().filter(|w| w.starts_with('a') && w.len() > 1 && w.as_bytes()[1].is_ascii_digit()).count();
     // atoms are never bare identifiers here: `c1 (` would be a call, which is outside the alphabet
-    let rich = r.chance(1, 4);
+    let rich = rich_ok && r.chance(1, 4);
     let fancy = r.chance(1, 5);
     let (atoms, atom_sx) = make_atoms(r, natoms.max(1), rich, true, rep);
     let rd = render(&words, &atoms, r, fancy);
@@ -675,7 +675,7 @@ fn stream_soup(m: &mut Model, rep: &mut Report, rng: &Rng, thorough: bool) {
             };
             words.push(w);
         }
-        soup_case(m, rep, &mut r, words, "soup");
+        soup_case(m, rep, &mut r, words, "soup", true);
     }
 }
 
@@ -722,7 +722,7 @@ fn stream_boundary(m: &mut Model, rep: &mut Report, rng: &Rng) {
                 }
             }
             rep.hit(&format!("boundary.kind.{kind}"));
-            soup_case(m, rep, &mut r, words, "boundary");
+            soup_case(m, rep, &mut r, words, "boundary", false);
         }
     }
 }
@@ -736,7 +736,7 @@ const VALID: &[&str] = &[
     "SELECT DISTINCT name FROM users",
     "SELECT name, COUNT(*) FROM users GROUP BY name HAVING COUNT(*) > 1",
     "SELECT * FROM users WHERE age >= 18 AND (status = 'active' OR NOT banned) ORDER BY name DESC LIMIT 10 OFFSET 5",
-    "SELECT u.name, o.total FROM users u JOIN orders o ON u.id = o.user_id WHERE o.total > 100",
+    "SELECT u.name, o.amount FROM users u JOIN orders o ON u.id = o.user_id WHERE o.amount > 100",
     "SELECT sub.x FROM (SELECT 1 AS x) sub",
     "SELECT * FROM t WHERE x IN (SELECT id FROM u WHERE y = 1)",
     "SELECT * FROM t WHERE EXISTS (SELECT 1 FROM u)",
@@ -784,7 +784,7 @@ const VALID: &[&str] = &[
     "CHECKPOINT 'my-checkpoint'",
     "ROLLBACK TO 'checkpoint-id'",
     "CHECKPOINTS LIMIT 5",
-    "CHAIN BEGIN",
+    "CHAIN HEIGHT",
     "BEGIN CHAIN TRANSACTION",
     "COMMIT CHAIN",
     "CLUSTER CONNECT '127.0.0.1:8080'",
@@ -815,6 +815,7 @@ struct Worker {
     child: Child,
     stdin: ChildStdin,
     rx: Receiver<String>,
+    stderr: std::sync::Arc<std::sync::Mutex<String>>,
 }
 impl Worker {
     fn spawn() -> Worker {
@@ -823,11 +824,12 @@ impl Worker {
             .arg("--child")
             .stdin(Stdio::piped())
             .stdout(Stdio::piped())
-            .stderr(Stdio::null())
+            .stderr(Stdio::piped())
             .spawn()
             .expect("spawn child");
         let stdin = child.stdin.take().unwrap();
         let out = child.stdout.take().unwrap();
+        let err = child.stderr.take().unwrap();
         let (tx, rx) = channel();
         std::thread::spawn(move || {
             let rd = BufReader::new(out);
@@ -842,17 +844,43 @@ impl Worker {
                 }
             }
         });
-        Worker { child, stdin, rx }
+        let stderr = std::sync::Arc::new(std::sync::Mutex::new(String::new()));
+        let se = stderr.clone();
+        std::thread::spawn(move || {
+            let rd = BufReader::new(err);
+            for l in rd.lines().map_while(Result::ok) {
+                let mut g = se.lock().unwrap();
+                if g.len() < 4000 {
+                    g.push_str(&l);
+                    g.push('\n');
+                }
+            }
+        });
+        Worker { child, stdin, rx, stderr }
     }
     /// Ok(answer) | Err("died" | "hang")
     fn ask(&mut self, line: &str, timeout: Duration) -> Result<String, &'static str> {
-        if self.stdin.write_all(line.as_bytes()).is_err() || self.stdin.write_all(b"\n").is_err() || self.stdin.flush().is_err() {
+        if self.stdin.write_all(line.as_bytes()).is_err()
+            || self.stdin.write_all(b"\n").is_err()
+            || self.stdin.flush().is_err()
+        {
             return Err("died");
         }
         match self.rx.recv_timeout(timeout) {
             Ok(l) => Ok(l),
             Err(std::sync::mpsc::RecvTimeoutError::Timeout) => Err("hang"),
             Err(_) => Err("died"),
+        }
+    }
+    /// after a death: did the runtime report a stack overflow?
+    fn death_kind(&mut self) -> &'static str {
+        let _ = self.child.wait();
+        std::thread::sleep(Duration::from_millis(20));
+        let g = self.stderr.lock().unwrap();
+        if g.contains("overflowed its stack") {
+            "stack_overflow"
+        } else {
+            "abort"
         }
     }
     fn kill(&mut self) {
@@ -881,8 +909,25 @@ fn kind_tag(k: &ParseErrorKind) -> &'static str {
     }
 }
 
-/// one evaluation of an entry point, canonical outcome (child side)
-fn eval_api(api: &str, src: &str) -> String {
+/// what an entry point returned; built on the small stack, inspected / dropped on a big one
+enum Out {
+    Stmt(Result<np::Statement, np::ParseError>),
+    Stmts(Result<Vec<np::Statement>, np::ParseError>),
+    Expr(Result<np::Expr, np::ParseError>),
+    Toks(Vec<np::Token>),
+}
+
+fn run_api(api: &str, src: &str) -> Out {
+    match api {
+        "parse" => Out::Stmt(np::parse(src)),
+        "parse_all" => Out::Stmts(np::parse_all(src)),
+        "parse_expr" => Out::Expr(np::parse_expr(src)),
+        _ => Out::Toks(np::tokenize(src)),
+    }
+}
+
+/// canonical one-line description (runs on the control thread: Debug is recursive)
+fn describe(out: &Out, src: &str) -> String {
     fn err_line(e: &np::ParseError, src: &str) -> String {
         let s = src.to_string();
         let e2 = e.clone();
@@ -892,24 +937,15 @@ fn eval_api(api: &str, src: &str) -> String {
         };
         format!("err {} {} {} {}", e.span.start.0, e.span.end.0, kind_tag(&e.kind), fmt)
     }
-    match api {
-        "parse" => match np::parse(src) {
-            Ok(st) => format!("ok {:016x}", fnv(&format!("{st:?}"))),
-            Err(e) => err_line(&e, src),
-        },
-        "parse_all" => match np::parse_all(src) {
-            Ok(st) => format!("ok {:016x}", fnv(&format!("{st:?}"))),
-            Err(e) => err_line(&e, src),
-        },
-        "parse_expr" => match np::parse_expr(src) {
-            Ok(st) => format!("ok {:016x}", fnv(&format!("{st:?}"))),
-            Err(e) => err_line(&e, src),
-        },
-        _ => {
-            let toks = np::tokenize(src);
+    match out {
+        Out::Stmt(Ok(st)) => format!("ok {:016x}", fnv(&format!("{st:?}"))),
+        Out::Stmts(Ok(st)) => format!("ok {:016x}", fnv(&format!("{st:?}"))),
+        Out::Expr(Ok(st)) => format!("ok {:016x}", fnv(&format!("{st:?}"))),
+        Out::Stmt(Err(e)) | Out::Stmts(Err(e)) | Out::Expr(Err(e)) => err_line(e, src),
+        Out::Toks(toks) => {
             let mut last = 0u32;
             let mut bad = false;
-            for t in &toks {
+            for t in toks {
                 if t.span.start.0 < last || t.span.end.0 < t.span.start.0 || t.span.end.0 as usize > src.len() {
                     bad = true;
                 }
@@ -924,46 +960,71 @@ fn eval_api(api: &str, src: &str) -> String {
     }
 }
 
+/// Child process: a control thread with a huge stack reads requests; each request runs the real
+/// entry point TWICE in fresh threads with the requested small stack under catch_unwind; results
+/// are formatted, compared and dropped on the control thread, so a stack overflow can only come
+/// from the parser itself (or, with api suffix `+drop`, from dropping its result).
 fn child_main() {
-    // keep panic messages off the terminal; they are reported through the protocol
     std::panic::set_hook(Box::new(|_| {}));
-    let stdin = std::io::stdin();
-    let stdout = std::io::stdout();
-    for line in stdin.lock().lines() {
-        let line = match line {
-            Ok(l) => l,
-            Err(_) => break,
-        };
-        let mut it = line.split(' ');
-        let api = it.next().unwrap_or("").to_string();
-        let stack_kb: usize = it.next().and_then(|s| s.parse().ok()).unwrap_or(2048);
-        let src = String::from_utf8_lossy(&unhex(it.next().unwrap_or("-"))).into_owned();
-        let h = std::thread::Builder::new()
-            .stack_size(stack_kb * 1024)
-            .spawn(move || {
-                let a = api.clone();
-                let s1 = src.clone();
-                let r1 = std::panic::catch_unwind(move || eval_api(&a, &s1));
-                let a = api.clone();
-                let s2 = src.clone();
-                let r2 = std::panic::catch_unwind(move || eval_api(&a, &s2));
-                match (r1, r2) {
-                    (Ok(x), Ok(y)) => {
-                        if x == y {
-                            x
-                        } else {
-                            format!("nondet {x} | {y}")
-                        }
-                    }
-                    _ => "panic".to_string(),
+    let ctl = std::thread::Builder::new()
+        .stack_size(2 << 30)
+        .spawn(|| {
+            let stdin = std::io::stdin();
+            let stdout = std::io::stdout();
+            for line in stdin.lock().lines() {
+                let line = match line {
+                    Ok(l) => l,
+                    Err(_) => break,
+                };
+                let mut it = line.split(' ');
+                let api_full = it.next().unwrap_or("").to_string();
+                let (api, drop_inside) = match api_full.strip_suffix("+drop") {
+                    Some(a) => (a.to_string(), true),
+                    None => (api_full.clone(), false),
+                };
+                let stack_kb: usize = it.next().and_then(|s| s.parse().ok()).unwrap_or(2048);
+                let src = String::from_utf8_lossy(&unhex(it.next().unwrap_or("-"))).into_owned();
+                let mut answers = Vec::new();
+                for _ in 0..2 {
+                    let a = api.clone();
+                    let s = src.clone();
+                    let h = std::thread::Builder::new()
+                        .stack_size(stack_kb * 1024)
+                        .spawn(move || {
+                            std::panic::catch_unwind(move || {
+                                let out = run_api(&a, &s);
+                                if drop_inside {
+                                    let summary = match &out {
+                                        Out::Stmt(Err(_)) | Out::Stmts(Err(_)) | Out::Expr(Err(_)) => "err-dropped",
+                                        _ => "ok-dropped",
+                                    };
+                                    drop(out);
+                                    Err(summary)
+                                } else {
+                                    Ok(out)
+                                }
+                            })
+                        })
+                        .expect("thread");
+                    let ans = match h.join() {
+                        Ok(Ok(Ok(out))) => describe(&out, &src),
+                        Ok(Ok(Err(summary))) => format!("ok {summary}"),
+                        _ => "panic".to_string(),
+                    };
+                    answers.push(ans);
                 }
-            })
-            .expect("thread");
-        let ans = h.join().unwrap_or_else(|_| "panic".to_string());
-        let mut o = stdout.lock();
-        let _ = writeln!(o, "{ans}");
-        let _ = o.flush();
-    }
+                let ans = if answers[0] == answers[1] {
+                    answers[0].clone()
+                } else {
+                    format!("nondet {} | {}", answers[0], answers[1])
+                };
+                let mut o = stdout.lock();
+                let _ = writeln!(o, "{ans}");
+                let _ = o.flush();
+            }
+        })
+        .expect("control thread");
+    let _ = ctl.join();
 }
 
 struct Adv {
@@ -972,13 +1033,13 @@ struct Adv {
 }
 
 impl Adv {
-    /// run `src` through `api`; record violations; returns the raw outcome
-    fn run(&mut self, rep: &mut Report, stream: &str, api: &str, src: &str, what: &str) -> String {
+    /// run `src` through `api`; record violations against `site`; returns the raw outcome
+    /// ("died:<kind>" / "hang" when the process did not answer)
+    fn run(&mut self, rep: &mut Report, stream: &str, site: &str, api: &str, src: &str, what: &str) -> String {
         let line = format!("{api} {} {}", self.stack_kb, hex(src.as_bytes()));
         let t0 = Instant::now();
         let ans = self.w.ask(&line, Duration::from_secs(20));
         rep.case(stream, None);
-        let site = format!("neumann_parser::{api}");
         let short = |s: &str| -> serde_json::Value {
             if s.len() <= 300 {
                 json!({"api": api, "text": s, "stack_kb": self.stack_kb, "gen": what})
@@ -997,17 +1058,25 @@ impl Adv {
         let out = match ans {
             Ok(a) => a,
             Err(kind) => {
+                let k = if kind == "hang" { "hang" } else { self.w.death_kind() };
                 self.w.kill();
                 self.w = Worker::spawn();
-                let k = if kind == "hang" { "hang" } else { "stack_overflow_or_abort" };
                 rep.violation(
                     &format!("{site}/{k}"),
-                    &format!("{api} on a {}-byte input ({what}) in a thread with a {} KiB stack: process {}", src.len(), self.stack_kb,
-                        if kind == "hang" { "did not answer within 20 s" } else { "died (stack overflow / abort), not catchable" }),
+                    &format!(
+                        "{api} on a {}-byte input ({what}) in a thread with a {} KiB stack: {}",
+                        src.len(),
+                        self.stack_kb,
+                        match k {
+                            "hang" => "no answer within 20 s",
+                            "stack_overflow" => "the thread overflowed its stack and the process was killed (not catchable)",
+                            _ => "the process aborted",
+                        }
+                    ),
                     short(src),
                 );
                 rep.hit(&format!("{stream}.outcome.{k}"));
-                return kind.to_string();
+                return if kind == "hang" { "hang".to_string() } else { format!("died:{k}") };
             }
         };
         let el = t0.elapsed();
@@ -1169,12 +1238,13 @@ fn nested(open: &str, close: &str, inner: &str, n: usize, closed: bool) -> Strin
 
 fn stream_adversarial(rep: &mut Report, rng: &Rng, thorough: bool) {
     let mut r = rng.fork("adversarial");
-    // 2 MiB = Rust's default stack for spawned threads (and tokio workers, where the server runs queries)
+    // 2 MiB = Rust's default stack for spawned threads (and tokio workers, where a server runs queries)
     let mut adv = Adv { w: Worker::spawn(), stack_kb: 2048 };
     let apis = ["parse", "parse_all", "parse_expr", "tokenize"];
+    let site_of = |api: &str| format!("neumann_parser::{api}");
 
     // (a) random bytes
-    let n = if thorough { 6000 } else { 800 };
+    let n = if thorough { 20000 } else { 3000 };
     for i in 0..n {
         let len = match r.below(6) {
             0 => r.below(8),
@@ -1183,21 +1253,25 @@ fn stream_adversarial(rep: &mut Report, rng: &Rng, thorough: bool) {
             _ => r.below(4096),
         } as usize;
         let bytes = if i % 3 == 0 {
-            // ascii-heavy
             (0..len).map(|_| *r.pick(b"abcXYZ019 ()[]{}'\",.;:-+*/%<>=!&|^~\n\t\\_eE")).collect::<Vec<u8>>()
         } else {
             r.bytes(len)
         };
         let s = String::from_utf8_lossy(&bytes).into_owned();
-        adv.run(rep, "adv.random_bytes", apis[i % 4], &s, "random bytes");
+        let api = apis[i % 4];
+        adv.run(rep, "adv.random_bytes", &site_of(api), api, &s, "random bytes");
     }
     // (b) token soup from the keyword / punctuation dictionary
-    let n = if thorough { 20000 } else { 2500 };
+    let n = if thorough { 60000 } else { 10000 };
     for i in 0..n {
         let k = 1 + r.below(24) as usize;
         let mut s = String::new();
         if r.chance(2, 3) {
-            s.push_str(*r.pick(&["SELECT", "INSERT", "UPDATE", "DELETE", "CREATE", "NODE", "EDGE", "FIND", "EMBED", "SIMILAR", "ENTITY", "GRAPH", "BATCH", "VAULT", "BLOB", "PATH", "NEIGHBORS"]));
+            s.push_str(*r.pick(&[
+                "SELECT", "INSERT", "UPDATE", "DELETE", "CREATE", "NODE", "EDGE", "FIND", "EMBED", "SIMILAR", "ENTITY",
+                "GRAPH", "BATCH", "VAULT", "BLOB", "PATH", "NEIGHBORS", "CACHE", "CHAIN", "CLUSTER", "CHECKPOINT",
+                "SHOW", "DROP", "DESCRIBE", "CONSTRAINT", "AGGREGATE", "ROLLBACK", "BEGIN", "COMMIT", "COUNT",
+            ]));
             s.push(' ');
         }
         for _ in 0..k {
@@ -1206,21 +1280,23 @@ fn stream_adversarial(rep: &mut Report, rng: &Rng, thorough: bool) {
                 s.push(' ');
             }
         }
-        adv.run(rep, "adv.token_soup", apis[i % 3], &s, "keyword/punctuation soup");
+        let api = apis[i % 3];
+        adv.run(rep, "adv.token_soup", &site_of(api), api, &s, "keyword/punctuation soup");
     }
     // (c) valid statements and their mutations
     for s in VALID {
-        let o = adv.run(rep, "adv.valid", "parse_all", s, "valid statement");
+        let o = adv.run(rep, "adv.valid", "neumann_parser::parse_all", "parse_all", s, "valid statement");
         if !o.starts_with("ok") {
-            rep.observe(json!({"valid_statement_rejected": s, "outcome": o}));
+            rep.observe(json!({"corpus_statement_rejected": s, "outcome": o}));
         }
-        adv.run(rep, "adv.valid", "parse", s, "valid statement");
+        adv.run(rep, "adv.valid", "neumann_parser::parse", "parse", s, "valid statement");
     }
-    let n = if thorough { 30000 } else { 4000 };
+    let n = if thorough { 100000 } else { 15000 };
     for i in 0..n {
         let base = *r.pick(VALID);
         let s = mutate(&mut r, base);
-        adv.run(rep, "adv.mutated", apis[i % 2], &s, "mutated valid statement");
+        let api = apis[i % 2];
+        adv.run(rep, "adv.mutated", &site_of(api), api, &s, "mutated valid statement");
     }
     // (d) deep nesting
     let depths: &[usize] = if thorough { &[10, 63, 64, 65, 66, 200, 1000, 3000, 10000, 100000] } else { &[10, 63, 64, 65, 200, 1000, 10000] };
@@ -1230,10 +1306,10 @@ fn stream_adversarial(rep: &mut Report, rng: &Rng, thorough: bool) {
             for closed in [true, false] {
                 let e = nested(open, close, inner, d, closed);
                 let tag = format!("{name} x{d}{}", if closed { "" } else { " unclosed" });
-                // the expression entry point
-                let o = adv.run(rep, "adv.deep.parse_expr", "parse_expr", &e, &tag);
-                if closed && d <= 60 && *name != "cast" && !o.starts_with("ok") {
-                    rep.observe(json!({"shallow_nesting_rejected": tag, "outcome": o}));
+                // the expression entry point (depth-limited: must answer TooDeep, never die)
+                let o = adv.run(rep, "adv.deep.parse_expr", "neumann_parser::ExprParser::parse_expr_bp", "parse_expr", &e, &tag);
+                if closed && d <= 20 && *name != "cast" && !o.starts_with("ok") {
+                    rep.observe(json!({"shallow_nesting_rejected_by_parse_expr": tag, "outcome": o}));
                 }
                 // the statement entry point, in every context (fewer contexts for the huge ones)
                 for (ci, (cname, pre, post)) in CTX.iter().enumerate() {
@@ -1241,13 +1317,10 @@ fn stream_adversarial(rep: &mut Report, rng: &Rng, thorough: bool) {
                         continue;
                     }
                     let s = format!("{pre}{e}{post}");
-                    let o = adv.run(rep, "adv.deep.parse", "parse", &s, &format!("{tag} in {cname}"));
-                    if o == "died" {
-                        let k = format!("{name}@2MiB");
-                        let cur = overflow_at.entry(k).or_insert(d);
-                        if d < *cur {
-                            *cur = d;
-                        }
+                    let o = adv.run(rep, "adv.deep.parse", "neumann_parser::Parser::parse_expr_bp", "parse", &s, &format!("{tag} in {cname}"));
+                    if o.starts_with("died") {
+                        let cur = overflow_at.entry(format!("expr:{name}")).or_insert(d);
+                        *cur = (*cur).min(d);
                     }
                 }
             }
@@ -1257,32 +1330,44 @@ fn stream_adversarial(rep: &mut Report, rng: &Rng, thorough: bool) {
         for &d in depths {
             for closed in [true, false] {
                 let s = nested(open, close, inner, d, closed);
-                let o = adv.run(rep, "adv.deep.stmt", "parse_all", &s, &format!("{name} x{d}{}", if closed { "" } else { " unclosed" }));
-                if o == "died" {
-                    let cur = overflow_at.entry(format!("{name}@2MiB")).or_insert(d);
-                    if d < *cur {
-                        *cur = d;
-                    }
+                let o = adv.run(rep, "adv.deep.stmt", &format!("neumann_parser::Parser::{name}"), "parse_all", &s, &format!("{name} x{d}{}", if closed { "" } else { " unclosed" }));
+                if o.starts_with("died") {
+                    let cur = overflow_at.entry(format!("stmt:{name}")).or_insert(d);
+                    *cur = (*cur).min(d);
                 }
             }
         }
     }
-    // long but flat inputs: must not be slow or recursive
+    if !overflow_at.is_empty() {
+        rep.note(&format!(
+            "smallest TESTED nesting depth at which the statement parser killed the process on a 2 MiB stack, per construct: {:?}",
+            overflow_at
+        ));
+    }
+    // long but flat inputs (outside the few-KB quantifier: reported as observations only)
     for (name, piece) in [("flat_or_chain", " OR x = 1"), ("flat_add_chain", " + 1"), ("flat_and_between", " AND y BETWEEN 1 AND 2")] {
         let mut s = String::from("SELECT * FROM t WHERE x = 1");
         for _ in 0..20000 {
             s.push_str(piece);
         }
-        adv.run(rep, "adv.deep.flat", "parse", &s, name);
+        let mut outcomes = Vec::new();
+        for api in ["parse", "parse+drop"] {
+            let line = format!("{api} {} {}", adv.stack_kb, hex(s.as_bytes()));
+            let res = adv.w.ask(&line, Duration::from_secs(30));
+            if res.is_err() {
+                let k = adv.w.death_kind();
+                adv.w.kill();
+                adv.w = Worker::spawn();
+                outcomes.push(format!("{api}: died ({k})"));
+            } else {
+                outcomes.push(format!("{api}: {}", res.unwrap().split(' ').next().unwrap_or("")));
+            }
+        }
+        rep.observe(json!({"flat_chain_20000_terms": name, "bytes": s.len(), "stack_kb": adv.stack_kb, "outcomes": outcomes,
+            "meaning": "`parse` = parsing alone; `parse+drop` = parsing and dropping the (20000-deep, left-nested) AST on the same small stack"}));
     }
     let big_comment = format!("SELECT 1 {} FROM t", "/*".repeat(20000));
-    adv.run(rep, "adv.deep.flat", "parse", &big_comment, "20000 nested block-comment openers");
-    if !overflow_at.is_empty() {
-        rep.note(&format!(
-            "smallest tested nesting depth that killed the process on a 2 MiB stack, per construct: {:?}",
-            overflow_at
-        ));
-    }
+    adv.run(rep, "adv.deep.flat", "neumann_parser::Lexer::skip_whitespace_and_comments", "parse", &big_comment, "20000 nested block-comment openers");
     // the same question on an 8 MiB stack (main-thread default), informational
     adv.stack_kb = 8192;
     for (name, open, close, inner) in [NEST[0], NEST[1], NEST[5], NEST[6]] {
@@ -1302,6 +1387,7 @@ fn stream_adversarial(rep: &mut Report, rng: &Rng, thorough: bool) {
         }
     }
 }
+
 
 // ------------------------------------------------------------------ main
 
